@@ -252,5 +252,21 @@ pub fn gen(tier: &str, seed: u64) -> Vec<String> {
             lines.push(mk_kline("KAN", false, cfg, &kh));
         }
     }
+    // chv2: whole-grammar configurations with a `defchordsv2` table, balanced histories, long tail
+    {
+        let mut r2 = Rng::new(seed ^ 0xC01C2);
+        for i in 0..(if thorough { 5000 } else { 400 }) {
+            let (cfg, keys) = crate::chv2gen::gen_full_cfg_chv2(&mut r2, true);
+            let gaps: &[u32] = match i % 3 {
+                0 => &[0, 1, 2, 3, 5],
+                1 => &[1, 4, 19, 20, 21, 49, 50, 51],
+                _ => &[0, 1, 30, 200],
+            };
+            let n_ev = r2.range(2, 24) as usize;
+            let h = consistent_history(&mut r2, &keys, n_ev, gaps, 3000);
+            let kh: Vec<KEv> = h.into_iter().map(KEv::L).collect();
+            lines.push(mk_kline("KAN", false, &cfg, &kh));
+        }
+    }
     lines
 }
